@@ -226,3 +226,152 @@ UNITS.append(_mds_unit("Mds12", "mds12", "crypto/src/hash/mds/mds_f64_12x12.rs")
 UNITS.append(_mds_unit("Mds8", "mds8", "crypto/src/hash/mds/mds_f64_8x8.rs"))
 # C11 END
 # ---------------------------------------------------------------------------------------------
+
+# ---------------------------------------------------------------------------------------------
+# C16 BEGIN (owner: C16 worker) -- integer-level functions of air/src/air/assertions/mod.rs.
+# `Assertion<E>` is an opaque struct parameter (as ProofOptions above): the generated record GAssertion holds the
+# three usize fields and the values vector represented by its LENGTH (the only thing these functions use);
+# the source guard pins the Rust struct.  Methods of the struct that this unit translates (is_single, ...) are
+# called as translated functions ("translated": True); `E` values are opaque (unit).
+_ASSERT_RAW = """(* Assertion<E> of air/src/air/assertions/mod.rs (guarded): column, first_step, stride : usize and
+   values : Vec<E>, the vector represented by its length. *)
+Record GAssertion : Set := mkGAssertion { ga_column : Z; ga_first_step : Z; ga_stride : Z; ga_values : Z }.
+Definition vec_len (v : Z) : Z := v.                       (* Vec::len *)
+Definition vec_is_empty (v : Z) : bool := Z.eqb v 0.       (* Vec::is_empty *)
+(* usize::is_power_of_two *)
+Definition is_pow2 (x : Z) : bool := andb (Z.ltb 0 x) (Z.eqb x (Z.pow 2 (Z.log2 x))).
+(* usize::next_power_of_two (mathematical value; the generated code checks that it fits) *)
+Definition next_pow2 (x : Z) : Z := if Z.leb x 1 then 1 else Z.pow 2 (Z.log2_up x).
+(* Option/Result::is_some / is_ok: `r.unwrap_or_else(|e| panic!(..))` at statement position is this assert *)
+Definition opt_is_some {A : Type} (o : option A) : bool := match o with Some _ => true | None => false end.
+"""
+
+_ASSERT_STRUCT = {"gtype": "GAssertion", "canon": "Assertion", "translated": True,
+                  "ctor": ("mkGAssertion", ["column", "first_step", "stride", "values"]),
+                  "fields": {"column": ("ga_column", U(64)), "first_step": ("ga_first_step", U(64)),
+                             "stride": ("ga_stride", U(64)), "values": ("ga_values", "Vec<E>")},
+                  "methods": {}}
+_AH = "< E : FieldElement > Assertion < E >"
+_AF = "air/src/air/assertions/mod.rs"
+ASSERTIONS = dict(
+    module="Assertions", prefix="assertions", file=_AF, elem="__no_element_type__", err_payload=True,
+    structs={
+        "Self": _ASSERT_STRUCT, "Assertion<E>": _ASSERT_STRUCT, "Assertion": _ASSERT_STRUCT,
+        "Vec<E>": {"gtype": "Z", "methods": {"len": ("vec_len", U(64)), "is_empty": ("vec_is_empty", ("bool",))}},
+        "E": {"gtype": "unit", "methods": {}},
+    },
+    guards=[
+        (_AF, "pub struct Assertion<E: FieldElement> { pub(super) column: usize, pub(super) first_step: usize, pub(super) stride: usize, pub(super) values: Vec<E>, }"),
+        (_AF, "impl<E: FieldElement> Assertion<E> {"),
+    ],
+    items=[
+        dict(raw=_ASSERT_RAW),
+        const("MIN_STRIDE_LENGTH"), const("NO_STRIDE"),
+        fn("validate_stride", role="free"),
+        fn("single", _AH), fn("periodic", _AH), fn("sequence", _AH),
+        fn("is_single", _AH), fn("is_periodic", _AH), fn("is_sequence", _AH),
+        fn("overlaps_with", _AH),
+        fn("validate_trace_width", _AH),
+        fn("validate_trace_length", _AH),
+        fn("get_num_steps", _AH),
+    ],
+)
+UNITS.append(ASSERTIONS)
+# C16 END
+# ---------------------------------------------------------------------------------------------
+
+# ---------------------------------------------------------------------------------------------
+# C12 BEGIN (owner: C12 worker) -- vint64 size encoding arithmetic and the limits checked by the
+# constructors / readers of ProofOptions, TraceInfo, Context, FriProof.
+# `fnpart` items (see rs2v.fn_part) translate a contiguous part of a function body whose surroundings
+# perform byte I/O (`self.write_u8`, `source.read_u8()?`): the tokens of the part are taken from the source on
+# every run; only the wrapper (which variables are live at the start of the part, and their types) is fixed here.
+def part(name, of, header="", **kw):
+    d = dict(kind="fnpart", name=name, of=of, header=header)
+    d.update(kw)
+    return d
+
+
+_BW = "utils/core/src/serde/byte_writer.rs"
+_BR = "utils/core/src/serde/byte_reader.rs"
+SERDE = dict(
+    module="Serde", prefix="serde", file=_BW,
+    guards=[
+        # the hand-modelled skeleton around the translated arithmetic (coq/Model/Codec.v write_usize / read_usize)
+        (_BW, "let value = value as u64; let length = encoded_len(value);"),
+        (_BW, "if length == 9 { // length byte is zero in this case self.write_u8(0); self.write(value.to_le_bytes()); } else {"),
+        (_BW, "self.write_bytes(&encoded_bytes[..length]);"),
+        (_BR, "let first_byte = self.peek_u8()?;"),
+        (_BR, "let result = if length == 9 { // 9-byte special case self.read_u8()?; let value = self.read_array::<8>()?; u64::from_le_bytes(value) } else { let mut encoded = [0u8; 8]; let value = self.read_slice(length)?; encoded[..length].copy_from_slice(value);"),
+    ],
+    items=[
+        fn("encoded_len", role="free"),
+        part("write_usize_enc", "write_usize", "trait ByteWriter*", params="value: u64, length: usize", ret="[u8; 8]",
+             start="let encoded_bytes =", stop="self.write_bytes", tail="encoded_bytes"),
+        part("read_usize_length", "read_usize", "trait ByteReader*", file=_BR, params="first_byte: u8", ret="usize",
+             start="let length = first_byte", stop="let result", tail="length"),
+        part("read_usize_shift", "read_usize", "trait ByteReader*", file=_BR, params="encoded: [u8; 8], length: usize", ret="u64",
+             start="u64::from_le_bytes(encoded) >> length", stop="} ;"),
+        part("read_usize_check", "read_usize", "trait ByteReader*", file=_BR, params="result: u64", ret="Option<usize>",
+             start="if result > usize::MAX as u64"),
+    ],
+)
+UNITS.append(SERDE)
+_OPTS = "air/src/options.rs"
+_TI = "air/src/air/trace_info.rs"
+_CTX = "air/src/proof/context.rs"
+_FRIP = "fri/src/proof.rs"
+_LIM_RAW = """(* opaque values seen by the translated checks: a `Vec<u8>` is represented by its length, a `ProofOptions`
+   by its blowup factor (the only accessor used by the translated parts) *)
+Definition is_pow2 (x : Z) : bool := (0 <? x) && (x =? 2 ^ Z.log2 x).   (* usize::is_power_of_two *)
+Definition lim_vec_len (n : Z) : Z := n.
+Definition lim_po_blowup_factor (b : Z) : Z := b.
+"""
+_PO5 = "num_queries: usize, blowup_factor: usize, grinding_factor: u32, fri_folding_factor: usize, fri_remainder_max_degree: usize"
+_DTI = "Deserializable for TraceInfo"
+LIMITS = dict(
+    module="Limits", prefix="lim", file=_OPTS, elem="TraceInfo",
+    structs={
+        "Vec<u8>": {"gtype": "Z", "methods": {"len": ("lim_vec_len", U(64))}},
+        "ProofOptions": {"gtype": "Z", "methods": {"blowup_factor": ("lim_po_blowup_factor", U(64))}},
+    },
+    guards=[
+        (_OPTS, "pub const fn blowup_factor(&self) -> usize { self.blowup_factor as usize }"),
+        (_TI, "pub fn length(&self) -> usize { self.trace_length }"),
+        (_CTX, "let trace_length = trace_info.length();"),
+        # `match` is outside the translated subset: the LDE-domain check of Context::read_from stays hand-modelled
+        (_CTX, "match trace_length.checked_mul(options.blowup_factor()) { Some(lde_domain_size) if lde_domain_size <= u32::MAX as usize => {}, _ => { return Err("),
+    ],
+    items=[
+        dict(raw=_LIM_RAW),
+        const("MAX_NUM_QUERIES"), const("MIN_BLOWUP_FACTOR"), const("MAX_BLOWUP_FACTOR"), const("MAX_GRINDING_FACTOR"),
+        const("FRI_MIN_FOLDING_FACTOR"), const("FRI_MAX_FOLDING_FACTOR"), const("FRI_MAX_REMAINDER_DEGREE"),
+        const("MIN_TRACE_LENGTH", "TraceInfo", file=_TI), const("MAX_TRACE_WIDTH", "TraceInfo", file=_TI),
+        const("MAX_META_LENGTH", "TraceInfo", file=_TI), const("MAX_RAND_SEGMENT_ELEMENTS", "TraceInfo", file=_TI),
+        # constructors: everything before the struct literal (the asserts); `_ok` = conjunction of the asserts
+        part("po_new_checks", "new", "ProofOptions", params=_PO5, ret="bool", stop="ProofOptions {", tail="true"),
+        part("ti_new_checks", "new_multi_segment", "TraceInfo", file=_TI,
+             params="main_segment_width: usize, aux_segment_width: usize, num_aux_segment_rands: usize, trace_length: usize, trace_meta: Vec<u8>",
+             ret="bool", stop="TraceInfo {", tail="true"),
+        part("ctx_new_checks", "new", "Context", file=_CTX, params="trace_length: usize, options: ProofOptions", ret="bool",
+             start="assert!(trace_length <= u32::MAX as usize", stop="Context {", tail="true"),
+        # readers: the validation between / after the byte reads (None = DeserializationError)
+        part("po_read_checks", "read_from", "Deserializable for ProofOptions", params=_PO5, ret="Option<bool>",
+             start="if num_queries == 0", stop="Ok(ProofOptions::new", tail="Some(true)"),
+        part("ti_read_main", "read_from", _DTI, file=_TI, params="main_segment_width: usize", ret="Option<bool>",
+             start="if main_segment_width == 0", stop="let aux_segment_width", tail="Some(true)"),
+        part("ti_read_width", "read_from", _DTI, file=_TI, params="main_segment_width: usize, aux_segment_width: usize", ret="Option<bool>",
+             start="let full_trace_width", stop="let num_aux_segment_rands", tail="Some(true)"),
+        part("ti_read_rands", "read_from", _DTI, file=_TI, params="aux_segment_width: usize, num_aux_segment_rands: usize", ret="Option<bool>",
+             start="if aux_segment_width == 0 && num_aux_segment_rands != 0", stop="let trace_length = source", tail="Some(true)"),
+        part("ti_read_length", "read_from", _DTI, file=_TI, params="trace_length: u8", ret="Option<usize>",
+             start="if trace_length < TraceInfo::MIN_TRACE_LENGTH", stop="let num_meta_bytes", tail="Some(trace_length)"),
+        part("ctx_read_checks", "read_from", "Deserializable for Context", file=_CTX, params="trace_length: usize, options: ProofOptions",
+             ret="Option<bool>", start="if trace_length > u32::MAX as usize", stop="match trace_length.checked_mul", tail="Some(true)"),
+        part("fri_read_partitions", "read_from", "Deserializable for FriProof", file=_FRIP, params="num_partitions: u8", ret="Option<bool>",
+             start="if num_partitions as u32 >= usize::BITS", stop="Ok(FriProof {", tail="Some(true)"),
+    ],
+)
+UNITS.append(LIMITS)
+# C12 END
+# ---------------------------------------------------------------------------------------------
